@@ -302,6 +302,13 @@ def chk_update(c):
     fs = [lambda *x: 1.0 + x[0] * x[-1], lambda *x: np.exp(x[0]) - 0.3 * x[-1], lambda *x: 2.0 + 0 * x[0]]
     problem = 'f * inner(grad(u), grad(v)) * dx + f * f * u * v * dx'
     sym = c.get('symmetric', False)
+    if c.get('gradf'):
+        # the updatable field enters through several array variables (value and gradient): all of them must be refreshed
+        problem = 'f * u * v * dx + inner(grad(f), grad(v)) * u * dx'
+        sym = False
+        rs = np.random.RandomState(17)
+        shape = tuple(kv.numdofs for kv in kvs)
+        fs = [bspline.BSplineFunc(kvs, rs.uniform(-1.0, 2.0, size=shape)) for _ in range(3)]
 
     def fresh(f):
         return _dense(assemble.assemble(problem, kvs, geo=geo, f=f, symmetric=sym))
@@ -425,6 +432,7 @@ def generate(tier, rng):
         yield 'formats', {'form': 'mass1c', 'kvs': _kvspecs(rng, 1, quick), 'geo': 'bump'}
     for r in range(2 if quick else 6):
         yield 'update', {'kvs': _kvspecs(rng, 2, quick), 'geo': ['bump', 'annulus'][r % 2], 'sequence': [[1, 2, 0], [2, 2, 1, 0]][r % 2], 'symmetric': bool(r % 2), 'via_kwargs': bool(r // 2 % 2) or r == 1}
+        yield 'update', {'kvs': _kvspecs(rng, 2, quick), 'geo': ['bump', 'annulus'][r % 2], 'sequence': [[1, 2, 0], [2, 1]][r % 2], 'gradf': True, 'only': 0, 'via_kwargs': bool(r % 2)}
         yield 'vector_layout', {'kvs': _kvspecs(rng, 2 + (r % 2 if not quick else 0), quick), 'geo': 'bump'}
 
 
@@ -441,6 +449,7 @@ def warmup(tier):
         jobs.append(lambda form=form: _asm_object({'form': form, 'kvs': kv2}, on_demand=True, bbox=((0, 1), (0, 1))))
     jobs.append(lambda: _asm_object({'form': 'mass3', 'kvs': kv2 + kv2[:1]}, on_demand=True, bbox=((0, 1), (0, 1), (0, 1))))
     jobs.append(lambda: chk_update({'kvs': kv2, 'sequence': [], 'symmetric': False, 'only': 0}))
+    jobs.append(lambda: chk_update({'kvs': kv2, 'sequence': [], 'gradf': True, 'only': 0}))
     for k in (1, 2, 3):
         jobs.append(lambda k=k: chk_update({'kvs': kv2, 'sequence': [], 'only': k}))
     jobs.append(lambda: chk_vector_layout({'kvs': kv2}))
